@@ -133,6 +133,34 @@ def write_model(d, name, base, consts, cfg_lines):
         f.write("\n".join(cfg_lines) + "\nCHECK_DEADLOCK FALSE\n")
 
 
+def apalache_check(name, module, args, timeout=1800):
+    """Run apalache-mc on a copy of one module in a directory of its own (its built-in Apalache.tla, not the TLC stand-in).
+    Returns (outcome, wall_s, tail): outcome in {"NoError", "Error", "timeout", "tool"}."""
+    exe = shutil.which("apalache-mc")
+    if not exe:
+        raise ToolError("apalache-mc not found")
+    d = os.path.join(WORK, "runs", name)
+    shutil.rmtree(d, ignore_errors=True)
+    os.makedirs(d)
+    shutil.copy(os.path.join(SPEC, module + ".tla"), d)
+    t = time.time()
+    try:
+        r = subprocess.run([exe, "check"] + list(args) + [module + ".tla"], cwd=d, text=True, capture_output=True, timeout=timeout,
+                           env=dict(os.environ, JVM_ARGS="-Xmx8g"))
+        out = r.stdout + r.stderr
+    except subprocess.TimeoutExpired as e:
+        return "timeout", time.time() - t, ""
+    finally:
+        shutil.rmtree(os.path.join(d, "_apalache-out"), ignore_errors=True)
+    if "The outcome is: NoError" in out and "EXITCODE: OK" in out:
+        oc = "NoError"
+    elif "The outcome is: Error" in out or "Checker has found an error" in out:
+        oc = "Error"
+    else:
+        oc = "tool"
+    return oc, time.time() - t, out[-2500:]
+
+
 RE_STATES = re.compile(r"(\d+) states generated, (\d+) distinct states found, (\d+) states left on queue")
 RE_DEPTH = re.compile(r"The depth of the complete state graph search is (\d+)")
 
